@@ -52,18 +52,13 @@ Definition c12_nn_row (tab : list (list Z)) (row : list Q) : list Q :=
   map (fun keys => nth (c12_nn_index keys) row 0%Q) tab.
 
 (* _nearest_neighbor; data = one row per leading index *)
-(* `rank1`: the data array is one-dimensional.  In that case the gathered result is squeezed
-   ("case for 1D slice of data"), which for a single destination point leaves a 0-d array and the
-   wrapper raises *)
-Definition c12_nn (rank1 : bool) (nn nf ne : Z) (t : c12_dists) (data : list (list Q)) : option (list (list Q)) :=
+Definition c12_nn (nn nf ne : Z) (t : c12_dists) (data : list (list Q)) : option (list (list Q)) :=
   match data with
   | [] => None
   | r0 :: _ =>
       match c12_kind_by_length nn nf ne (Z.of_nat (length r0)) with
       | None => None
-      | Some k =>
-          if rank1 && Nat.eqb (length (c12_table t k)) 1 then None
-          else Some (map (c12_nn_row (c12_table t k)) data)
+      | Some k => Some (map (c12_nn_row (c12_table t k)) data)
       end
   end.
 
